@@ -4,7 +4,7 @@ Decided: decode totality (no panic edge), writer/reader field-sequence symmetry,
 cursor discipline of the deserialisation flavor. Not decided: decode(encode(e)) == e."""
 from engine import site_of
 from facts import callee_decl, callee_name
-from flow import tracer, short, required_outcomes, deep_origins, switch_cond
+from flow import cmp_facts, tracer, short, required_outcomes, deep_origins, switch_cond
 import panics
 
 EXPLANATION = (
@@ -203,6 +203,39 @@ def r4_bit_layout(ctx):
                       "%s: an entity whose value uses those bits does not survive the round trip" % (bad[1] if bad else ""))
     if n < 4:
         ctx.bad("lossless/sites", site_of(w), "only %d shift/cast operations found in the entity codec" % n, kind="anchor-missing")
+
+    # the reader accepts every value the writer can produce: a range test on a decoded field must not cut into the writer's range
+    rseq = codec_sequence(F, r, "postcard_utils::from_buf")
+    wseq = codec_sequence(F, w, "postcard_utils::to_extend_mut")
+    oks = [bb for bb, i, st in r.statements() if st["s"] == "assign" and st["place"] == {"l": 0, "p": []} and st["rvalue"]["rv"] == "agg" and st["rvalue"].get("variant") == "Ok"]
+    rtr = tracer(r)
+    WW = bitwidth.Widths(w)
+    if oks and rseq and wseq:
+        for (sb, c, o) in required_outcomes(F, r, oks[0]):
+            if c["kind"] != "cmp" or len(o) != 1 or next(iter(o)) not in (True, False):
+                continue
+            rel, x, y = cmp_facts(c, next(iter(o)))
+            for (val_side, k_side, flipped) in ((x, y, False), (y, x, True)):
+                if k_side.get("k") != "const" or not isinstance(k_side.get("val"), int):
+                    continue
+                src = rtr.operand(val_side)
+                idx = [n_ for n_, (rb, ty, g) in enumerate(rseq) if any(o2.kind == "call" and o2.data == rb and all(e[0] == "U" for e in o2.path) for o2 in src)]
+                if not idx or idx[0] >= len(wseq):
+                    continue
+                wbits = WW.bits(w.blocks[wseq[idx[0]][0]].term["args"][0])
+                # the written operand is a reference to the value: look through it
+                wmax = (1 << min(wbits, 64)) - 1 if wbits else None
+                for o3 in tracer(w).operand(w.blocks[wseq[idx[0]][0]].term["args"][0]):
+                    pass
+                kv = k_side["val"]
+                # accepted values on the path to Ok(..): val REL k (or k REL val when flipped)
+                if not flipped:
+                    accepts_all = (rel == "<=" and kv >= wmax) or (rel == "<" and kv > wmax) or rel == "!="
+                else:
+                    accepts_all = (rel == "<=" and kv <= 0) or (rel == "<" and kv < 0) or rel == "!="
+                ctx.check(accepts_all, ctx.nth("layout/reader-accepts-writer-range"), site_of(r, sb),
+                          "the reader only accepts field %d when it is %s %d, but the writer produces values up to %d (%d significant bits): such an entity is encoded fine and "
+                          "rejected on decoding" % (idx[0], rel if not flipped else "at least", kv, wmax, wbits), "bound %d vs writer max %d" % (kv, wmax))
 
     def consts_of(body, pred):
         out = []
